@@ -108,7 +108,18 @@ def oracle(ctx, script, real):
     last = None
     # the radio configuration as the command history defines it (independent of the state the implementation reports)
     track = [dict(rx=None, tx=None, fh=None, run=False) for _ in cfg]
+    # mute flags, drop counters / periods and header versions likewise come from the command history (C05's reference of the documented
+    # command table), not from the attributes the implementation reports: RFMUTE / FAKE_DROP / SETFORMAT act on the addressed transceiver only
+    from . import C05 as _C05
+    ref = _C05.Ref(cfg)
     for e in events:
+        if e["op"][0] == "ctrl":
+            try:
+                tk = bytes(e["op"][2]).decode("ascii").strip().strip("\0").split(" ")
+                if tk[0] == "CMD" and len(tk) >= 2:
+                    ref.cmd(e["op"][1], tk[1], [int(x) for x in tk[2:]])
+            except (ValueError, UnicodeDecodeError):
+                pass
         if e["op"][0] == "ctrl" and e["obs"][1] == 1:
             try:
                 toks = bytes(e["op"][2]).decode("ascii").strip("\0").split(" ")
@@ -145,11 +156,16 @@ def oracle(ctx, script, real):
                                     dict(trx=i, trx_defs=defs, ops=[SC.describe(o) for o in ops]), key="c02-config:" + ",".join(diff),
                                     expected={k: track[i][k] for k in diff}, observed={k: rep[k] for k in diff})
                     track[i] = rep            # report once, then follow the implementation
+                simr = (bool(t["sim"][0]), t["sim"][11], t["sim"][12], t["ver"])
+                simw = (bool(ref.t[i]["muted"]), ref.t[i]["drop"], ref.t[i]["period"], ref.t[i]["ver"])
+                if simr != simw:
+                    ctx.oracle_fail("mute flag / drop counter / drop period / header version of a transceiver differ from what the commands addressed to IT set (and the bursts it suppressed since)",
+                                    dict(trx=i, trx_defs=defs, ops=[SC.describe(o) for o in ops]), key="c02-loss-parameters-vs-history", expected=simw, observed=simr)
+                    ref.t[i]["muted"], ref.t[i]["drop"], ref.t[i]["period"], ref.t[i]["ver"] = simr      # report once
         elif e["op"][0] == "tick" and last is not None and not e.get("exc"):
             fn = e["op"][1]
             st = last[0]
             expect = []
-            drop = [t["sim"][11] for t in st]
             for i, t in enumerate(st):
                 if not t["run"]:
                     continue
@@ -160,14 +176,14 @@ def oracle(ctx, script, real):
                     for j, u in enumerate(st):
                         if j != i and u["run"] and freq(u, fn, True) == txf:
                             # every tuned running peer gets its own copy; what it sees depends only on ITS mute / drop state and the sender's mute
-                            if u["sim"][0] or t["sim"][0]:
+                            if ref.t[j]["muted"] or ref.t[i]["muted"]:
                                 sup = True
-                            elif drop[j] != 0 and fn % u["sim"][12] == 0:
+                            elif ref.t[j]["drop"] != 0 and fn % ref.t[j]["period"] == 0:
                                 sup = True
-                                drop[j] -= 1
+                                ref.t[j]["drop"] -= 1
                             else:
                                 sup = False
-                            if sup and u["ver"] == 0:
+                            if sup and ref.t[j]["ver"] == 0:
                                 continue
                             expect.append((i, j, "nope" if sup else "burst"))
                             ctx.nontrivial(("route", len(st), t["fh"] is not None, u["fh"] is not None, txf is None, bool(cfg[i]["children"]), cfg[j]["idx"] > 0))
